@@ -284,6 +284,24 @@ def near1(spec):
     return spec.get('kind') == 'pl' and 0 < abs(spec['p']['gamma'] - 1) < 1e-8
 
 
+def epeak_rtol(spec, a, b):
+    """accuracy that EpeakFunctionEnergyProfile.get_integral can have by construction: it is a composite
+    trapezoid with 50 nodes in log10(E) (documented in the class as a generic numeric integration), whose
+    relative error for an integrand exp(phi(u)), u = ln E, is about (h * phi')^2 / 12 with the node distance
+    h = ln(b/a)/49.  For the generated family f(E) = (E k)^-g exp(-E k / Ec) (k = 10^(e_peak_orig - e_peak)) the
+    log-slope of f(E) E is 1 - g - E k / Ec.  Returns the relative tolerance, or None where the node distance
+    does not resolve the integrand at all (h * |phi'| > 1: deep in the exponential cut-off) — there the method
+    gives an order of magnitude only and no value comparison is made (counted as skipped)."""
+    p = spec['p']
+    k = 10.0 ** (p['e_peak_orig'] - p['e_peak'])
+    h = abs(math.log(b / a)) / 49.0
+    slope = max(abs(1 - p['g'] - x * k / p['Ec']) for x in (a, b))
+    hl = h * slope
+    if hl > 1.0:
+        return None
+    return 1e-3 + hl * hl / 4.0
+
+
 def o_integral_quad(ctx, case):
     """closed form (get_integral) = numerical integral of the profile's own values"""
     spec, x1, x2, au = case['spec'], case['x1'], case['x2'], case.get('arg_unit')
@@ -297,7 +315,13 @@ def o_integral_quad(ctx, case):
     if err:
         return err
     ref = quad_energy(prof, a, b) if spec['kind'] in E_KINDS else quad_time(prof, a, b)
-    tol = case.get('rtol', 1e-6) * abs(ref) + 1e-300
+    rtol = case.get('rtol', 1e-6)
+    if spec['kind'] == 'epeak':
+        rtol = epeak_rtol(spec, a, b)
+        if rtol is None:
+            ctx.count('skipped:epeak-trapezoid-unresolved')
+            return None
+    tol = rtol * abs(ref) + 1e-300
     if spec['kind'] == 'gauss':     # erf(x2) - erf(x1): a few ulps of the total area are lost in the tails
         tol += 1e-14 * 2.6 * abs(float(prof.sigma_t))
     elif spec['kind'] in T_KINDS:   # differences of (MJD-sized) times
@@ -316,7 +340,13 @@ def o_additive(ctx, case):
     v, err = _try(lambda: (g(a, b), g(b, c), g(a, c)), 'get_integral of %r' % spec)
     if err:
         return err
-    rt = 2e-2 if spec['kind'] == 'epeak' else (1e-6 if spec['kind'] in NUMERIC_INT_KINDS else 1e-9)
+    rt = 1e-6 if spec['kind'] in NUMERIC_INT_KINDS else 1e-9
+    if spec['kind'] == 'epeak':
+        rts = [epeak_rtol(spec, x, y) for x, y in ((a, b), (b, c), (a, c))]
+        if any(r is None for r in rts):
+            ctx.count('skipped:epeak-trapezoid-unresolved')
+            return None
+        rt = max(rts)
     if not abs(v[0] + v[1] - v[2]) <= rt * (abs(v[0]) + abs(v[1]) + abs(v[2])) + pl_noise(spec, [a, b, b, c, a, c]) + 1e-300:
         return 'get_integral of %r is not additive: [%r,%r] %r + [%r,%r] %r != [%r,%r] %r' % (spec, a, b, v[0], b, c, v[1], a, c, v[2])
     return None
